@@ -4,12 +4,19 @@
    per-file results, and - for one directory - exactly WHICH objects are presented: every listed file that
    is not hidden and is not the top-level Manifest, once, with the entry recorded under its name or none;
    every listed sub-directory that has an entry; every other entry of the directory as a missing file.
-   PARTIAL: how the per-directory dictionaries and the pruned sub-directory lists compose over the whole
-   tree (the recursion of the walk, IGNORE pruning) is carried by the correspondence engine. *)
+   The composition over the whole tree (Proofs/WalkComplete.v): EVERY entry of the merged entry dictionary is checked
+   against the object at its path - whichever directory it belongs to, visited or not - and EVERY visible file of every
+   directory reached from the start (through sub-directories that are not hidden and have no entry) is checked with an
+   entry recorded for its path or as a stray file; a verification that reports nothing therefore means that all of them
+   matched (C01_every_entry_is_checked, C01_every_found_file_is_checked, C01_silent_verification_means_match,
+   C01_default_handler_success).  The dictionaries are treated as association lists without assuming unique keys.
+   PARTIAL: that the merged dictionary holds exactly the entries of the loaded Manifests below the directory
+   (get_file_entry_dict) is carried by the correspondence engine. *)
 From Coq Require Import List NArith ZArith.
 From Gemato Require Import Py.PyStr Py.PyPath Gen.Tables Gen.Util Model.Entry Model.Text Model.OpenPGP Model.Hash
   Model.FS Model.Verify Model.Loader.
-From Gemato Require Import Proofs.VerifyPath Proofs.KeepGoing Proofs.UtilSpec Proofs.DirSpec Proofs.Compat.
+From Gemato Require Import Exec.Oracles.
+From Gemato Require Import Proofs.VerifyPath Proofs.KeepGoing Proofs.UtilSpec Proofs.DirSpec Proofs.Compat Proofs.OnlyOffending Proofs.WalkComplete.
 Import ListNotations.
 Open Scope N_scope.
 
@@ -103,3 +110,77 @@ Example C01_conflict_example :
                              (EFile TDATA [102] [] 1 [([77;68;53], [98;98]); ([83;72;65;53;49;50], [99;99])])
   = Ok (false, [([77;68;53], Some [97;97], Some [98;98]); ([83;72;65;53;49;50], None, Some [99;99])]).
 Proof. vm_compute. reflexivity. Qed.
+
+(* ---- the whole tree ------------------------------------------------------------------------------------------------ *)
+(* [presented L w c path rp eo log]: verify_path was asked about the object that the tree-relative path rp names (system path
+   grown from (root/path, path) by the same names, or root/rp), with the entry eo (or none), and if it answered "does not
+   match" the handler was invoked for rp with exactly these differences *)
+
+(* every entry of the merged dictionary is checked: no entry below the verified directory is passed over *)
+Theorem C01_every_entry_is_checked : forall (L : hashlib) decompress pgp w l path pol lm l' b log,
+  assert_directory_verifies L decompress pgp w l path pol lm = Ok (l', b, log) ->
+  exists ed, get_file_entry_dict L decompress pgp w l path None true = Ok (l', ed) /\
+    forall dir dd n e, In (dir, dd) ed -> In (n, e) dd ->
+      presented L w (mk_vctx (l_top l') (l_dev l') pol lm) path (pjoin dir n) (Some e) log.
+Proof.
+  intros L decompress pgp w l path pol lm l' b log H.
+  destruct (directory_verification_complete L decompress pgp w l path pol lm l' b log H) as [ed [E1 [E2 _]]].
+  exists ed. split; [exact E1|exact E2].
+Qed.
+Print Assumptions C01_every_entry_is_checked.
+
+(* every file found by walking is checked: [reach] are the directories entered from the start - each step goes into a listed
+   sub-directory that is not hidden and has no entry (an IGNORE entry prunes, any other entry makes it a mismatch) *)
+Theorem C01_every_found_file_is_checked : forall (L : hashlib) decompress pgp w l path pol lm l' b log,
+  assert_directory_verifies L decompress pgp w l path pol lm = Ok (l', b, log) ->
+  exists ed, get_file_entry_dict L decompress pgp w l path None true = Ok (l', ed) /\
+    forall dp rel ents f, reach w ed (pjoin rootdir path) path dp rel -> p_scandir w dp = Ok ents ->
+      In f (map fst (filter (fun x => negb (snd x)) ents)) -> visible (l_top l') rel f = true ->
+      exists eo, presented L w (mk_vctx (l_top l') (l_dev l') pol lm) path (pjoin rel f) eo log /\
+                 (eo = None \/ exists e dd, eo = Some e /\ In (rel, dd) ed /\ In (f, e) dd).
+Proof.
+  intros L decompress pgp w l path pol lm l' b log H.
+  destruct (directory_verification_complete L decompress pgp w l path pol lm l' b log H) as [ed [E1 [_ E3]]].
+  exists ed. split; [exact E1|]. intros dp rel ents f Hr Hs Hf Hv. exact (E3 dp rel Hr ents f Hs Hf Hv).
+Qed.
+Print Assumptions C01_every_found_file_is_checked.
+
+Theorem C01_silent_verification_means_match : forall (L : hashlib) decompress pgp w l path pol lm l' b,
+  assert_directory_verifies L decompress pgp w l path pol lm = Ok (l', b, []) ->
+  exists ed, get_file_entry_dict L decompress pgp w l path None true = Ok (l', ed) /\
+    (forall dir dd n e, In (dir, dd) ed -> In (n, e) dd ->
+       exists dp diff, names_object path dp (pjoin dir n) /\ verify_path L w dp (Some e) (l_dev l') lm = Ok (true, diff)) /\
+    (forall dp rel ents f, reach w ed (pjoin rootdir path) path dp rel -> p_scandir w dp = Ok ents ->
+       In f (map fst (filter (fun x => negb (snd x)) ents)) -> visible (l_top l') rel f = true ->
+       exists fp eo diff, names_object path fp (pjoin rel f) /\ verify_path L w fp eo (l_dev l') lm = Ok (true, diff) /\
+         (eo = None \/ exists e dd, eo = Some e /\ In (rel, dd) ed /\ In (f, e) dd)).
+Proof. exact silent_verification_means_match. Qed.
+Print Assumptions C01_silent_verification_means_match.
+
+(* the default handler raises on the first mismatch: a verification that returns has reported nothing and says True *)
+Theorem C01_default_handler_success : forall (L : hashlib) decompress pgp w l path lm l' b log,
+  assert_directory_verifies L decompress pgp w l path PolThrow lm = Ok (l', b, log) -> log = [] /\ b = true.
+Proof. exact default_handler_logs_nothing. Qed.
+Print Assumptions C01_default_handler_success.
+
+(* non-vacuity: top-level Manifest 'MANIFEST s/Manifest 9', s/Manifest 'DATA a 1', the files s/a and (listed nowhere) b;
+   a keep-going verification of the whole tree returns False having reported exactly b; the directory s is reached *)
+Definition c01_w : world :=
+  mk_world 1 [(1, IDir 7 1 [([77;97;110;105;102;101;115;116], TIno 2); ([115], TIno 4); ([98], TIno 6)]);
+              (2, IFile 7 0 22 [77;65;78;73;70;69;83;84;32;115;47;77;97;110;105;102;101;115;116;32;57;10]);
+              (4, IDir 7 1 [([77;97;110;105;102;101;115;116], TIno 5); ([97], TIno 3)]);
+              (5, IFile 7 0 9 [68;65;84;65;32;97;32;49;10]);
+              (3, IFile 7 0 1 [120]); (6, IFile 7 0 1 [121])] [] [].
+Definition c01_dec : list N -> list N -> res (list N) := fun _ _ => Err XBadCompressed.
+Definition c01_pgp : list N -> res sigdata := fun _ => Err (XPGP PGPNoImpl).
+Example C01_whole_tree_example :
+  exists l0 l' ed,
+    new_loader (table_hashlib []) c01_dec c01_pgp c01_w [77;97;110;105;102;101;115;116] (mk_opts None false None [] PDefault None None false) false true = Ok l0 /\
+    assert_directory_verifies (table_hashlib []) c01_dec c01_pgp c01_w l0 [] PolFalse None = Ok (l', false, [([98], [s_exists])]) /\
+    get_file_entry_dict (table_hashlib []) c01_dec c01_pgp c01_w l0 [] None true = Ok (l', ed) /\
+    reach c01_w ed (pjoin rootdir []) [] (pjoin (pjoin rootdir []) [115]) (pjoin [] [115]).
+Proof.
+  do 3 eexists. split; [vm_compute; reflexivity|]. split; [vm_compute; reflexivity|]. split; [vm_compute; reflexivity|].
+  eapply reach_down; [vm_compute; reflexivity|vm_compute; left; reflexivity|reflexivity| |apply reach_here].
+  intros dd H. vm_compute in H. repeat (destruct H as [H|H]; [inversion H; subst; reflexivity|]). destruct H.
+Qed.
